@@ -25,9 +25,11 @@ func Run(cfg hx.Config) error {
 	runDistroless(r, rnd.Fork(), cfg)
 	runApk(r, rnd.Fork(), cfg)
 	runOsRelease(r, rnd.Fork(), cfg)
+	runDistScanners(r, rnd.Fork(), cfg)
 	runPython(r, rnd.Fork(), cfg)
 	runNodejs(r, rnd.Fork(), cfg)
 	runRuby(r, rnd.Fork(), cfg)
+	runJava(r, rnd.Fork(), cfg)
 	if err := runOsOwned(r, rnd.Fork(), cfg); err != nil {
 		return err
 	}
